@@ -322,6 +322,9 @@ def _feasible_starts(name, mask_row):
     return idx
 
 
+CROSS_SIZE_ENVS = ["tsp", "cvrp", "sdvrp", "cvrptw", "svrp", "op", "mtvrp"]
+
+
 def _plan_rollout(rc, st, name, tier):
     cfg = _small_cfg(name, rc, tier)
     env = E.make_env(cfg)
@@ -331,6 +334,16 @@ def _plan_rollout(rc, st, name, tier):
     if name == "op" and rc.random() < 0.7:
         rows = _op_far_nodes(rows, rc, rc.choice([1, 2, 2, 3]))
         hand = True
+    env_cfg = None
+    if name in CROSS_SIZE_ENVS and rc.random() < 0.3:
+        # cross-size use: these environments take every size from the data ("we do not enforce loading from
+        # self for flexibility"), so an environment built for one size is evaluated on instances of another
+        import copy as _copy
+
+        env_cfg = _copy.deepcopy(cfg)
+        n_data = cfg["gen"]["num_loc"]
+        env_cfg["gen"]["num_loc"] = rc.choice([max(2, n_data - rc.randint(1, 3)), n_data + rc.randint(1, 4)])
+        env = E.make_env(env_cfg)
     td0 = E.reset(env, cfg, rows)
     try:
         gns = int(env.get_num_starts(td0))
@@ -356,7 +369,7 @@ def _plan_rollout(rc, st, name, tier):
             k = max(2, min(k, 6))
         if name == "op" and hand and rc.random() < 0.6:
             k = max(2, rc.randint(2, max(2, nfeas)))  # every row has >= k reachable customers, some unreachable
-    return {"scenario": "rollout", "cfg": cfg, "instances": [E.enc_row(r) for r in rows], "hand_built": hand,
+    return {"scenario": "rollout", "cfg": cfg, "env_cfg": env_cfg, "instances": [E.enc_row(r) for r in rows], "hand_built": hand,
             "mode": mode, "k": k, "select_best": rc.random() < 0.5,
             "scripted_mode": rc.choice(["gaussian", "gaussian", "gaussian", "ties", "huge", "flat", "one_dominant"]),
             "table_seed": rc.randrange(1 << 20), "sample_seed": rc.randrange(1 << 30),
@@ -433,7 +446,9 @@ def _exec_rollout(run):
     B = len(rows)
     k, mode = plan["k"], plan["mode"]
     with run.guard(name, "construct env"):
-        env = E.make_env(cfg)
+        env = E.make_env(plan.get("env_cfg") or cfg)
+    if plan.get("env_cfg"):
+        run.fault("cross_size_env")
     with run.guard(name, "env.reset"):
         td = E.reset(env, cfg, rows)
     if name in PAYLOAD_KEY_ENVS:
